@@ -603,6 +603,29 @@ def repo_state():
         return "unknown"
 
 
+TIMINGS = os.path.join(ROOT, "timings.json")
+QUICK_LIMIT_S = 480.0
+
+
+def load_timings():
+    try:
+        return json.load(open(TIMINGS))
+    except Exception:
+        return {}
+
+
+def too_slow_for_quick(h, timings):
+    """measured tier assignment: a quick-tier harness whose last recorded run (idle 16-core machine or
+    worse) took longer than QUICK_LIMIT_S or was inconclusive is run in the thorough tier only,
+    unless it is annotated keep=1"""
+    if h.get("keep") == "1":
+        return False
+    t = timings.get(h["name"])
+    if not t:
+        return False
+    return t["s"] > QUICK_LIMIT_S or t["outcome"] == "inconclusive"
+
+
 def main():
     ap = argparse.ArgumentParser()
     ap.add_argument("prop", nargs="?")
@@ -613,6 +636,7 @@ def main():
     ap.add_argument("--jobs", type=int, default=int(os.environ.get("VERIF_JOBS", "16")))
     ap.add_argument("--budget", type=float, default=None, help="wall-clock budget in seconds for scheduling (thorough)")
     ap.add_argument("--no-evidence", action="store_true")
+    ap.add_argument("--record-timings", action="store_true", help="update timings.json from this run (development)")
     a = ap.parse_args()
     seed = int(os.environ.get("VERIF_SEED", "0") or 0)
     tier = a.tier if a.tier in ("quick", "thorough", "probe") else "quick"
@@ -657,11 +681,14 @@ def main():
     logdir = os.path.join(LOGS, prop)
     os.makedirs(logdir, exist_ok=True)
     hs_all = gen_all(prop, tier, seed)
+    demoted = []
     if tier == "probe":
         hs = [h for h in hs_all if h["id"] == prop and h["tier"] == "probe"]
         a.no_evidence = True
     else:
-        hs = [h for h in hs_all if h["id"] == prop and h["tier"] != "probe" and (tier == "thorough" or h["tier"] == "quick")]
+        timings = load_timings()
+        hs = [h for h in hs_all if h["id"] == prop and h["tier"] != "probe" and (tier == "thorough" or (h["tier"] == "quick" and not too_slow_for_quick(h, timings)))]
+        demoted = [h["name"] for h in hs_all if h["id"] == prop and h["tier"] == "quick" and tier == "quick" and too_slow_for_quick(h, timings)]
     if a.only:
         hs = [h for h in hs if re.search(a.only, h["name"])]
     if not hs:
@@ -841,6 +868,7 @@ def main():
             "discharged": discharged,
             "inconclusive": inconclusive,
             "not_run": not_run,
+            "quick_harnesses_demoted_to_thorough_by_measured_time": demoted,
             "evaluations": len(results),
             "distinct_nontrivial": nontrivial,
             "rule": "one evaluation = one Kani/CBMC solver query (harness) over symbolic operands; distinct_nontrivial counts claim harnesses with a decided verdict whose SAT instance was non-empty (clauses > 0) and whose end-of-harness cover was satisfiable",
@@ -863,6 +891,12 @@ def main():
         os.makedirs(os.path.join(ROOT, "evidence"), exist_ok=True)
         json.dump(ev, open(os.path.join(ROOT, "evidence", prop + ".json"), "w"), indent=1)
 
+    if a.record_timings:
+        tm = load_timings()
+        for name, r in results.items():
+            if r["outcome"] in ("pass", "fail", "inconclusive"):
+                tm[name] = {"s": r["wall_s"], "outcome": "inconclusive" if r["outcome"] == "inconclusive" else "decided"}
+        json.dump(tm, open(TIMINGS, "w"), indent=0, sort_keys=True)
     for l in known_lines:
         log(l)
     log(
